@@ -291,6 +291,14 @@ def _walk_check(case):
             cl.add("wrapper_batch_shape_N")
         else:
             dist = SequentialLanguageModelDistribution(walk, None, dict(init), T, validate_args=case["validate_args"])
+        # the definition of sequence_log_probs applied to the model's own outputs on these paths
+        from pydrobert.torch.functional import sequence_log_probs
+        full = lm(value.t()[:-1], dict(init))
+        require(list(full.shape) == [S, N, V], "shape of lm(path)", list(full.shape), [S, N, V])
+        sl = sequence_log_probs(full, value.t(), 0, eos)
+        for n in range(N):
+            require(close(float(sl[n]), float(lp[n]), rel=1e-5, abs_=2e-5),
+                    "sequence_log_probs(lm(path), path) != the walk's reported log-probability", float(sl[n]), float(lp[n]))
         wl = dist.log_prob(value)
         require(list(wl.shape) == [N], "wrapper log_prob shape", list(wl.shape), [N])
         for n in range(N):
